@@ -200,6 +200,16 @@ func scenC10(x *Exec) {
 		started := false
 		cond := simrt.NewCond()
 		var got []string // every emitted line, in emission order
+		var held [][]byte // the slices themselves, kept like a route or destination queue keeps them
+		heldIntact := func() bool {
+			for i, h := range held {
+				if string(h) != got[i] {
+					s.Fail(prop+":line-changed-after-emission", "emitted line #%d was %q when it was handed over and reads %q now: the aggregator reused its memory while the line was still queued downstream", i, got[i], string(h))
+					return false
+				}
+			}
+			return true
+		}
 		s.Spawn("relay-boot", "relay", "relay1", func() {
 			initRelayGlobals()
 			m, err := mkMatcher(FilterSpec{Regex: p.Regex})
@@ -221,6 +231,7 @@ func scenC10(x *Exec) {
 			for l := range out {
 				simrt.Yield("out")
 				got = append(got, string(l))
+				held = append(held, l)
 			}
 		})
 		aspec := AggSpec{Fun: p.Fun, F: FilterSpec{Regex: p.Regex}, OutFmt: p.OutFmt, Interval: p.Interval, Wait: p.Wait}
@@ -371,6 +382,9 @@ func scenC10(x *Exec) {
 				return
 			}
 			x.Out.Nontrivial = len(got) >= 2
+			if !heldIntact() {
+				return
+			}
 			x.Out.StateSig = fmt.Sprintf("lockstep fun=%s emitted=%d tooOld=%d", p.Fun, len(got), wantTooOld)
 			if wantTooOld > 0 {
 				s.Probe("c10.too_old_points")
@@ -475,6 +489,9 @@ func scenC10(x *Exec) {
 			return
 		}
 		x.Out.Nontrivial = len(got) >= 2
+		if !heldIntact() {
+			return
+		}
 		x.Out.StateSig = fmt.Sprintf("concurrent fun=%s emitted=%d points=%d", p.Fun, len(got), total)
 	})
 	finishRun(x, s, prop)
